@@ -76,6 +76,12 @@ def expected_clone(td, v, side, copy):
 def judge(chk, c, obs, dropped):
     td = c.td
     copy = c.info["copy"]
+    if c.cid in dropped and c.info.get("copy") and any(
+            d.get("code") in ("E0277", "E0204") and "Copy" in (d.get("message", "") + (d.get("rendered") or "")) for d in dropped[c.cid]):
+        d = dropped[c.cid][0]
+        chk.violation("not-copy|%s" % c.td.kind, "Copy is educed but the type is not Copy (a by-value use behind a `X: Copy` bound does not compile)\n%s\n%s"
+                      % (d.get("rendered") or d["message"], c.text), {"case.rs": c.module()})
+        return
     if c.cid in dropped:
         chk.inconc("does-not-compile (see C01)")
         log("C07: case dropped: %s\n%s" % (dropped[c.cid][0]["rendered"] or dropped[c.cid][0]["message"], c.text))
